@@ -1694,7 +1694,7 @@ static filter_code qt_feb_tf_call_cb(const qt_key_t            addr,
     void             *f_arg = ((void **)tf_arg)[1];
     void             *tls;
 
-    if (waiter->rdata->tasklocal_size <= qlib->qthread_tasklocal_size) {
+    if ((waiter->rdata == NULL) || (waiter->rdata->tasklocal_size <= qlib->qthread_tasklocal_size)) {
         if (waiter->flags & QTHREAD_BIG_STRUCT) {
             tls = &waiter->data[qlib->qthread_argcopy_size];
         } else {
